@@ -104,6 +104,39 @@ pub fn cfg_for(driver: &str, tier: &str) -> Option<(Cfg, u32)> {
             c.final_dispatches = 1;
             (c, if q { 1 } else { 2 })
         }
+        // C03 (sequential half): ping / clone / drop / disable / enable / dispatch histories
+        "ping-seq" => {
+            let mut c = Cfg::base("ping-seq");
+            c.initial_sets = vec![vec![KindSpec::Ping], vec![KindSpec::Ping, KindSpec::Ping]];
+            c.max_actors = 2;
+            c.depth = if q { 7 } else { 9 };
+            c.top_remove = false;
+            c.top_update = false;
+            c.top_clone = true;
+            c.cb_remove = false;
+            c.cb_update = false;
+            c.cb_cause2 = true;
+            c.check_epoll = true;
+            c.prune = true;
+            c.final_dispatches = 2;
+            (c, if q { 1 } else { 2 })
+        }
+        // C04 (sequential half): send / clone / drop / disable / enable / dispatch histories
+        "chan-seq" => {
+            let mut c = Cfg::base("chan-seq");
+            c.initial_sets = vec![vec![KindSpec::Chan], vec![KindSpec::Chan, KindSpec::Ping]];
+            c.max_actors = 2;
+            c.depth = if q { 7 } else { 9 };
+            c.top_remove = false;
+            c.top_update = false;
+            c.top_clone = true;
+            c.cb_remove = false;
+            c.cb_update = false;
+            c.cb_cause2 = true;
+            c.prune = true;
+            c.final_dispatches = 2;
+            (c, if q { 1 } else { 2 })
+        }
         _ => return None,
     })
 }
